@@ -215,7 +215,7 @@ pub fn run(o: &Opts) -> i32 {
             probes(&mut pr)
         });
         let labels: Vec<J> = log.iter().map(|(t, l)| json!({"t": t.to_string(), "l": l})).collect();
-        tr.emit(&json!({"a":"sched","s":sched,"used":used,"labels":labels,"pv":sc["pv"],"wres": if wok {"ok"} else {"err"},
+        tr.emit(&json!({"a":"sched","s":sched,"used":used,"labels":labels,"pv":sc.get("pv").cloned().unwrap_or(json!({})),"wres": if wok {"ok"} else {"err"},
             "o1":v1,"o2":v2,"raw1":raw1,"raw2":raw2,"fin":vfin}));
         drop(s);
     }
